@@ -388,9 +388,9 @@ theorem decodeUtf16_ne_nil (name : Bytes) (h : name ≠ []) : Extract.decodeUtf1
       · simp
     · simp
 
-/-- ucs2toUTF8 panics exactly on the empty name -/
-theorem xUcs2toUTF8_panic_iff (name : Bytes) : (∃ p, xUcs2toUTF8 name = .panic p) ↔ name = [] := by
-  unfold xUcs2toUTF8 Extract.ucs2toUTF8
+/-- ucs2toUTF8 panics exactly on the empty name (C16's model of the function) -/
+theorem ucs2toUTF8_panic_iff (name : Bytes) : (∃ p, Extract.ucs2toUTF8 name = .panic p) ↔ name = [] := by
+  unfold Extract.ucs2toUTF8
   constructor
   · intro ⟨p, h⟩
     cases hn : name with
@@ -415,6 +415,23 @@ theorem xUcs2toUTF8_panic_iff (name : Bytes) : (∃ p, xUcs2toUTF8 name = .panic
   · intro h
     subst h
     exact ⟨_, by unfold Extract.decodeUtf16; rfl⟩
+
+/-- the same under the inventory name of the site -/
+theorem xUcs2toUTF8_panic_iff (name : Bytes) : (∃ p, xUcs2toUTF8 name = .panic p) ↔ name = [] := by
+  rw [← ucs2toUTF8_panic_iff]
+  unfold xUcs2toUTF8
+  cases h : Extract.ucs2toUTF8 name with
+  | ok v => simp
+  | err c => simp
+  | panic q => exact ⟨fun _ => ⟨q, rfl⟩, fun _ => ⟨_, rfl⟩⟩
+
+theorem xUcs2toUTF8_panic_site (name : Bytes) (p : String) (h : xUcs2toUTF8 name = .panic p) :
+    p = "exel.ucs2toUTF8#2:index" := by
+  unfold xUcs2toUTF8 at h
+  cases h' : Extract.ucs2toUTF8 name with
+  | ok v => rw [h'] at h; cases h
+  | err c => rw [h'] at h; cases h
+  | panic q => rw [h'] at h; injection h with h; exact h.symm
 
 theorem xLocateReq_no_panic (t : Nat) (loc : Bytes) (p : String) : xLocateReq t loc ≠ .panic p := by
   unfold xLocateReq
@@ -626,9 +643,9 @@ theorem xReadSizedArray_lin (w : Nat) (hw1 : 1 ≤ w) (hw : w ≤ 4) (b : Bytes)
 /-- what ByteSizedCStr.Unmarshal does with the array it has read -/
 def cstrTail (data rest : Bytes) : Step Bytes :=
   if data.length = 0 then .failed
-  else (xIndex data (data.length - 1) "ByteSizedCStr.Unmarshal#index#0" rest).andThen fun last rest =>
+  else (xIndex data (data.length - 1) "eventlog.ByteSizedCStr.Unmarshal#1:index" rest).andThen fun last rest =>
     if last != 0 then .failed
-    else ((xSlice data 0 (data.length - 1) "ByteSizedCStr.Unmarshal#slice#1" rest).charge (data.length - 1) 0)
+    else ((xSlice data 0 (data.length - 1) "eventlog.ByteSizedCStr.Unmarshal#2:slice" rest).charge (data.length - 1) 0)
 
 theorem xReadCStr_eq (b : Bytes) : xReadCStr b = (xReadSizedArray 1 b).andThen cstrTail := rfl
 
@@ -694,7 +711,7 @@ def digestTail (alg : Nat) (rest : Bytes) : Step Digest :=
   match tpmAlgoSize alg with
   | none => .failed
   | some sz =>
-    (xMake sz "TaggedDigest.Unmarshal#make#0" rest).andThen fun _ rest =>
+    (xMake sz "eventlog.TaggedDigest.Unmarshal#1:make" rest).andThen fun _ rest =>
       ((xReadFull 0 sz rest).noEof).map fun d => ⟨alg, d⟩
 
 theorem xReadDigest_eq (b : Bytes) : xReadDigest b = (xReadLE 2 b).andThen digestTail := rfl
@@ -717,7 +734,7 @@ theorem digestTail_lin (alg : Nat) (rest : Bytes) : Lin 9 0 49 20 (digestTail al
     obtain ⟨_, h1, h2⟩ := tpmAlgoSize_lt ha
     have h20 := tpmAlgoSize_ge ha
     simp only
-    have hm : Lin 8 sz sz 0 (xMake sz "TaggedDigest.Unmarshal#make#0" rest) rest := by
+    have hm : Lin 8 sz sz 0 (xMake sz "eventlog.TaggedDigest.Unmarshal#1:make" rest) rest := by
       unfold xMake
       simp only [tpmAlgoSize_small ha, if_true]
       constructor
@@ -915,9 +932,9 @@ theorem xUnmarshalEvent3_cost (rt : Runtime) (hrt : rt.Lawful) (data : Bytes) :
 /-- what TCGEventData.Unmarshal does with the chunk it has read -/
 def edTail (rt : Runtime) (size : Nat) (chunk rest : Bytes) : Step EventData :=
   if size ≥ 16 then
-    (xSlice chunk 0 16 "TCGEventData.Unmarshal#slice#0" rest).andThen fun sig rest =>
+    (xSlice chunk 0 16 "eventlog.TCGEventData.Unmarshal#1:slice" rest).andThen fun sig rest =>
       if sig == event3Signature then
-        ((xSlice chunk 16 chunk.length "TCGEventData.Unmarshal#slice#1" rest).charge
+        ((xSlice chunk 16 chunk.length "eventlog.TCGEventData.Unmarshal#4:slice" rest).charge
             (hexKeyAlloc + sizeofSP800155Event3) 0).andThen fun payload rest =>
           match (xUnmarshalEvent3 rt payload).res with
           | .ok e _ => ⟨.ok (.event3 e) rest, (xUnmarshalEvent3 rt payload).alloc, (xUnmarshalEvent3 rt payload).ticks⟩
